@@ -322,8 +322,9 @@ CurEquivariant  == IsSome(cur) => EquivariantAll(cur.some, n)
 CurUnitary      == IsSome(cur) => LET A == VMat(Local(cur.some)) IN IsUnitaryV(A)
 CurLiftUnitary  == IsSome(cur) => LET A == VMat(U(cur.some, n)) IN IsUnitaryV(A)
 CurDaggerTwice  == IsSome(cur) => Local(DaggerGate(DaggerGate(cur.some))) = Local(cur.some)
-ProgUnitary     == LET A == ProgV(prog, n) IN IsUnitaryV(A)
-ProgDaggerAdjoint == LET A == ProgV(prog, n) IN ProgV(DaggerProg(prog), n) = VAdj(A)
+\* (judged in the states where no gate is under construction: the others have the same program)
+ProgUnitary     == IsNone(cur) => LET A == ProgV(prog, n) IN IsUnitaryV(A)
+ProgDaggerAdjoint == IsNone(cur) => LET A == ProgV(prog, n) IN ProgV(DaggerProg(prog), n) = VAdj(A)
 ProgDaggerShape == /\ Len(DaggerProg(prog)) = Len(prog)
                    /\ \A j \in DOMAIN prog : /\ Head(DaggerProg(prog)[j].mods) = "DAGGER"
                                              /\ WellFormed(DaggerProg(prog)[j])
